@@ -486,7 +486,16 @@ def sendRecvGoAway (s : Streams) (lastStreamId : Nat) : Streams × Except PErr U
   else (s.modSend fun sd => { sd with maxStreamId := lastStreamId }, .ok ())
 
 /-- `Send::handle_error(buffer, stream, counts)` -/
-def sendHandleError (s : Streams) (id : Nat) : Streams := (s.clearQueue id).reclaimAllCapacity id
+def sendHandleError (s : Streams) (id : Nat) : Streams :=
+  let s := (s.clearQueue id).reclaimAllCapacity id
+  -- a stream still waiting to be opened has just lost its HEADERS: a scheduled implicit reset
+  -- becomes a plain local reset (no RST_STREAM on an idle stream)
+  let st := s.stream id
+  if st.isPendingOpen then
+    match st.state.getScheduledReset with
+    | some reason => s.modStreamW id fun st => st.setReset reason .library
+    | none => s
+  else s
 
 /-- `Store::try_for_each` specialised to a step that may fail; the index logic (an entry removed
     during the call makes the last entry take its place, so the index stays) is kept -/
